@@ -1,7 +1,7 @@
 """C08 -- cutting the capture at any point only removes a suffix of the export."""
 import collections, json, sys
 from lib.common import *
-from lib import oracle, tlsgen
+from lib import oracle, tlsgen, pool
 from lib.implrun import Impl, options_arg
 from ref import tls_ref, iana_ref, capgen, synth, readback
 
@@ -109,7 +109,28 @@ def main():
         f, dg = check_cuts(impl, pk, keylog, ["-a"] if meta else [], ck, hist, "%s 0x%04X #%d" % (ver, code, i), model=m, opts=options_arg(meta=meta))
         fails += f
         disagreements += dg
+    # QUIC: every cut position of reference connections (alone and interleaved with a TLS connection); per flow and direction the
+    # datagrams exported from the cut capture must be a prefix of those exported from the full one
+    nq = 4 if ck.tier == "quick" else 40
+    for i in range(nq):
+        h2 = collections.Counter()
+        conns = [pool.quic_conn(rng, h2, idx=1, napp=rng.choice([3, 6, 10]))]
+        if i % 2:
+            conns.append(pool.tls_conn(rng, table, h2, idx=2, nrec=3, reclen=50))
+        case = pool.build(rng, conns, h2)
+        hist["capture=quic%s" % ("+tls" if i % 2 else "")] += 1
+        meta = (i % 4 == 2)
+        f, dg = check_cuts(impl, case.packets, case.keylog, ["-a"] if meta else [], ck, hist, "QUIC #%d" % i, model=None)
+        fails += f
+        if m:
+            for n in range(0, len(case.packets) + 1, 7):
+                cap = capgen.to_pcapng(case.packets[:n])
+                st, out, it = tlsgen.run_impl(impl, cap, case.keylog, ["-a"] if meta else [])
+                mt = tlsgen.canon_model(m.ask("run_file", options_arg(meta=meta), impl.secrets_arg(case.keylog), impl.items_arg(cap)))
+                if mt != it:
+                    disagreements.append("QUIC #%d cut %d model=%s impl=%s" % (i, n, mt[:80], it[:80]))
     if m:
+        ck.cov["model_runs_skipped"] = m.skipped
         m.close()
     impl.cleanup()
     ck.cov["traces_validated_against_impl"] = ck.cov["evaluations"]
@@ -125,7 +146,7 @@ def main():
                      {"broken": ck.broken, "searched": "%d cuts on the implementation: every cut export is a prefix of the full export" % ck.cov["evaluations"]}, found_input=False)
     ck.finish("proof", assumptions=[
         "key log given by file, or by decryption-secrets blocks inside the cut part (no block after the cut)",
-        "TLS over TCP is proved on the model of main.run/Session/OutputBuilder; the QUIC path is covered by the cut sweep of this check only (see DESIGN.md)"])
+        "TLS over TCP is proved on the model of main.run/Session/OutputBuilder; the QUIC path is covered by the cut sweep of this check (every cut of reference QUIC connections, alone and with a TLS connection) and by model correspondence at every seventh cut"])
 
 
 def replay(path):
